@@ -398,7 +398,9 @@ def check_subs(ctx: core.Ctx, g: GenInfo):
             except subseval.Unsupported as ex:
                 bad.append(str(ex))
         for s_, d_ in entries:
-            if s_[0] == "OTHER" or d_[0] != "SYM":
+            if s_[0] == "OTHER":
+                bad.append(f"({s_[-1]}, {d_[-1]})")
+            elif d_[0] != "SYM" and s_[0] == "DT":
                 bad.append(f"({s_[-1]}, {d_[-1]})")
         if bad:
             for b in bad:
@@ -410,9 +412,12 @@ def check_subs(ctx: core.Ctx, g: GenInfo):
         dup = []
         for s_, d_ in entries:
             if s_[0] == "ROLE":
-                if s_[1] in got and got[s_[1]] != d_[1]:
+                # a role whose symbols are replaced by anything but a fresh accessor Symbol (a constant looked up at generation time, a string) is
+                # recorded as such: the comparison with the required accessor text below reports it
+                txt_ = d_[1] if d_[0] == "SYM" else f"<not an accessor symbol: {d_[1]}>"
+                if s_[1] in got and got[s_[1]] != txt_:
                     dup.append(s_[1])
-                got[s_[1]] = d_[1]
+                got[s_[1]] = txt_
         dts = [d_[1] for s_, d_ in entries if s_[0] == "DT"]
         dt_ok = (len(dts) == 1 and dts[0] == dtname) if dts else None
         if dup:
